@@ -83,7 +83,8 @@ Proof. exact In_box_points. Qed.
 
 (* ---- non-vacuity: the hypotheses are satisfiable and the functions compute something ---- *)
 Example C05_circle_example :
-  circle_contains_checked (Circ (P 0 0) 11) (P 32773 5) = None /\ circle_contains_checked (Circ (P 0 0) 11) (P 23175 5) = Some false /\
+  circle_contains_checked (Circ (P 0 0) 11) (P 32773 5) = None /\
+  ellipse_contains_checked (Ell (P 0 0) (S 1001 500)) (P 536871412 250) = None /\ circle_contains_checked (Circ (P 0 0) 11) (P 23175 5) = Some false /\
   circle_ok (Circ (P (-2) 3) 3) /\
   circle_points (Circ (P (-2) 3) 3) = [P (-1) 3; P (-2) 4; P (-1) 4; P 0 4; P (-1) 5] /\
   ellipse_ok (Ell (P 0 0) (S 2 20)) /\
